@@ -46,8 +46,8 @@ def kv_for(rng, p, size, kind):
         interior += [d / 32.0] * m
     U = [0.0] * (p + 1) + interior + [1.0] * (p + 1)
     if kind == "affine":
-        a = rng.choice([2.0, 3.0, 0.5, 4.0, 1.5])
-        b = rng.choice([-1.0, 0.25, 2.0, 0.0, -3.5])
+        a = rng.choice([2.0, 3.0, 0.5, 4.0, 1.5, 1.0])
+        b = rng.choice([-1.0, 0.25, 2.0, -0.5, -3.5])
         U = [a * k + b for k in U]
     return U
 
@@ -80,7 +80,7 @@ class CurveF(Family):
             rat = rng.random() < 0.5
             c = {"p": p, "U": U, "P": gc.points(rng, size, dim), "rational": rat, "kind": kind,
                  "normalize": kind in ("uniform", "mult"), "us": params(rng, U, p, 4) + [U[p], U[size]],
-                 "sample": rng.randint(2, 9)}
+                 "sample": rng.randint(2, 9), "sample2": rng.randint(2, 9)}
             if rat:
                 c["W"] = gc.weights(rng, size)
             out.append(c)
@@ -96,6 +96,8 @@ class CurveF(Family):
                 o.sample_size = c["sample"]
                 r["evalpts"] = [list(x) for x in o.evalpts]
                 r["sample_size"] = o.sample_size
+                o.sample_size = c["sample2"]      # edit the density after a first evaluation, read the grid again
+                r["evalpts2"] = [list(x) for x in o.evalpts]
             return r
         return call(f)
 
@@ -112,6 +114,7 @@ class CurveF(Family):
             a, G.ql(c["us"]), G.sll(o["single"]), a, G.ql(c["us"]), G.sll(o["d0"]))
         if "evalpts" in o:
             e = "andb (%s) (closeLL (obj_curve_evalpts Qops %s %s %s) %s)" % (e, G.Q(TOL8), a, G.n(c["sample"]), G.sll(o["evalpts"]))
+            e = "andb (%s) (closeLL (obj_curve_evalpts Qops %s %s %s) %s)" % (e, G.Q(TOL8), a, G.n(c["sample2"]), G.sll(o["evalpts2"]))
         return "(" + e + ")"
 
     def oracle(self, c, out):
@@ -142,6 +145,12 @@ class CurveF(Family):
                     return "curve-grid: evalpts[%d] is not the point at parameter %s" % (i, u)
             if not gc.closel(o["evalpts"][0], S.curve_def(c, U, lo), 1e-12) or not gc.closel(o["evalpts"][-1], S.curve_def(c, U, hi), 1e-12):
                 return "curve-grid: the sampled grid does not start/end on the domain ends"
+            n2 = c["sample2"]
+            if len(o["evalpts2"]) != n2:
+                return "curve-grid: after changing sample_size from %d to %d the grid has %d points" % (n, n2, len(o["evalpts2"]))
+            for i, pt in enumerate(o["evalpts2"]):
+                if not gc.closel(pt, S.curve_def(c, U, lo + (hi - lo) * F(i, n2 - 1))):
+                    return "curve-grid: after changing sample_size, evalpts[%d] is not the point at its grid parameter" % i
         return None
 
     def nontrivial(self, c, out):
@@ -172,7 +181,8 @@ class SurfaceF(Family):
             us, vs = params(rng, Uu, pu, 3) + [Uu[pu], Uu[su]], params(rng, Uv, pv, 3) + [Uv[sv], Uv[pv]]
             c = {"pu": pu, "pv": pv, "su": su, "sv": sv, "Uu": Uu, "Uv": Uv, "P": gc.points(rng, su * sv, dim), "rational": rat,
                  "kind": kind, "normalize": kind != "affine", "uvs": [[a, b] for a, b in zip(us, vs)],
-                 "sample": [rng.randint(2, 5), rng.randint(2, 6)]}
+                 "sample": [rng.randint(2, 5), rng.randint(2, 6)], "sample2": [rng.randint(2, 5), rng.randint(2, 6)],
+                 "which": rng.choice(["u", "v", "uv", "vu"])}
             if rat:
                 c["W"] = gc.weights(rng, su * sv)
             out.append(c)
@@ -189,6 +199,12 @@ class SurfaceF(Family):
                 o.sample_size_u, o.sample_size_v = c["sample"]
                 r["evalpts"] = [list(x) for x in o.evalpts]
                 r["sample_size"] = [o.sample_size_u, o.sample_size_v]
+                for d in c["which"]:              # edit the density per direction after a first evaluation
+                    if d == "u":
+                        o.sample_size_u = c["sample2"][0]
+                    else:
+                        o.sample_size_v = c["sample2"][1]
+                r["evalpts2"] = [list(x) for x in o.evalpts]
             return r
         return call(f)
 
@@ -207,7 +223,12 @@ class SurfaceF(Family):
             a, uvs, G.sll(o["single"]), a, uvs, G.sll(o["d0"]))
         if "evalpts" in o:
             e = "andb (%s) (closeLL (obj_surface_evalpts Qops %s %s %s %s) %s)" % (e, G.Q(TOL8), a, G.n(c["sample"][0]), G.n(c["sample"][1]), G.sll(o["evalpts"]))
+            n2 = self._sizes2(c)
+            e = "andb (%s) (closeLL (obj_surface_evalpts Qops %s %s %s %s) %s)" % (e, G.Q(TOL8), a, G.n(n2[0]), G.n(n2[1]), G.sll(o["evalpts2"]))
         return "(" + e + ")"
+
+    def _sizes2(self, c):
+        return [c["sample2"][0] if "u" in c["which"] else c["sample"][0], c["sample2"][1] if "v" in c["which"] else c["sample"][1]]
 
     def oracle(self, c, out):
         if "ok" not in out:
@@ -237,6 +258,15 @@ class SurfaceF(Family):
                     v = lv + (hv - lv) * F(j, nv - 1)
                     if not gc.closel(o["evalpts"][j + nv * i], S.surface_def(c, Uu, Uv, u, v)):
                         return "surface-grid: evalpts[%d] (i=%d,j=%d) is not the point at (%s,%s): v must vary fastest" % (j + nv * i, i, j, u, v)
+            nu, nv = self._sizes2(c)
+            if len(o["evalpts2"]) != nu * nv:
+                return "surface-grid: after setting sample_size_%s the grid has %d points, expected %d x %d" % (c["which"], len(o["evalpts2"]), nu, nv)
+            for i in (0, nu - 1):
+                for j in range(nv):
+                    u = lu + (hu - lu) * F(i, nu - 1)
+                    v = lv + (hv - lv) * F(j, nv - 1)
+                    if not gc.closel(o["evalpts2"][j + nv * i], S.surface_def(c, Uu, Uv, u, v)):
+                        return "surface-grid: after a density edit evalpts[%d] is not the point at its grid parameter" % (j + nv * i)
         return None
 
     def nontrivial(self, c, out):
